@@ -50,6 +50,16 @@ CLAIMS['C08'] = {
     'note': TB,
     'technique': 'Lean 4 theorems by symbolic execution of check/get/put in the sequential semantics + differential (malformed stream, buffer layouts)',
 }
+CLAIMS['C20'] = {
+    'text': ('Theorem free_event_exact: for every table state, every free event (pfn, k) covered by a recorded allocation '
+             '(ap -> (frame, K)), k <= K, pfn a 2^k-aligned part of it, with the recorded pfn blocks disjoint: the replayer calls '
+             'put(frame + (pfn - ap), k), which are exactly the frames the table maps pfn..pfn+2^k to, and afterwards the table '
+             'maps exactly the remaining pfns to the same frames (Maps st\' q f <-> Maps st q f and q outside the freed part); '
+             'findCover_spec. The final free count is then the allocator\'s own accounting (C02/C04). The replay loop over the '
+             'allocator model is compared with the built replay binary on synthetic trace files.'),
+    'note': TB + ' The replay binary itself (argument parsing, mmap of the trace, logging) is run, not modelled.',
+    'technique': 'Lean 4 theorem about the replayer bookkeeping (list/arith induction) + differential run of the built replay binary on synthetic traces',
+}
 
 _PENDING = 'claimed by DESIGN.md; theorem module not yet landed in this revision (work in progress, see DESIGN.md §10 staging)'
 NOT_APPLICABLE = {
